@@ -21,8 +21,8 @@ META = {
     "design_ref": "DESIGN.md §4 C11",
     "technique": "Coq proof over the reals about the Gallina model of matrix_inverse_root (torch.linalg.eigh as an oracle whose recorded answer is an input of the model) "
                  "+ correspondence evaluated by vm_compute in binary64 inside coqc + certified checker on the implementation's output + measured float32/float64 residuals",
-    "level_text": "Proved in Coq (13 theorems, props/C11.v; real-number instance of the model, stdlib real axioms only; shape/root guards closed and valid for every scalar instance): for ANY size n, "
-                  "any symmetric A (no PSD assumption), eps > 0, any positive rational root and any answer (L, Q) of eigh satisfying its contract (query = Q diag(L) Q^T, Q orthogonal), the matrix returned by "
+    "level_text": "Proved in Coq (14 theorems, props/C11.v; real-number instance of the model, stdlib real axioms only; shape/root guards closed and valid for every scalar instance): for ANY size n, "
+                  "any symmetric A (no PSD assumption), eps > 0, any positive rational root and any answer (L, Q) of eigh satisfying its contract (query = Q diag(L) Q^T, Q^T Q = I; Q Q^T = I is derived, left_inv_right_inv), the matrix returned by "
                   "the eigendecomposition path of matrix_inverse_root - with and without enhance_stability - is symmetric, positive definite (x^T X x > 0), has all eigenvalues <= eps^e "
                   "(x^T X x <= eps^e x^T x; e = the negative binary32-rounded exponent actually used), commutes with A, does not depend on which valid decomposition eigh returns "
                   "(spectral_fun_unique, lambda_min included) and is orthogonally equivariant X(P A P^T) = P X(A) P^T; the numel==1 path has the same properties for every real entry, negative included; "
@@ -32,8 +32,8 @@ META = {
                   "(C11_checkb, sound over the reals) evaluates symmetry, commutation, positive Rayleigh quotients <= eps^e on the implementation's own output. "
                   "MEASURED, not proved (labelled so in the evidence): finiteness and the size of the symmetry / PD / cap / commutation / equivariance residuals of the real routine in float32 and float64 "
                   "for n up to 64 relative to n*u*cond; the eigh contract residuals; the double-precision retry.",
-    "level_note": "Trusted: Coq kernel + vm_compute; the hand-written model (checked against the code only on generated inputs); the oracle contract for torch.linalg.eigh with BOTH Q^T Q = I and Q Q^T = I "
-                  "(measured every run, never proved); torch.pow = real power on positive bases; nothing is claimed about rounding error of the binary64/binary32 executions beyond the measured constants. "
+    "level_note": "Trusted: Coq kernel + vm_compute; the hand-written model (checked against the code only on generated inputs); the oracle contract for torch.linalg.eigh (A = Q diag(L) Q^T, Q^T Q = I: "
+                  "measured every run, never proved); torch.pow = real power on positive bases; nothing is claimed about rounding error of the binary64/binary32 executions beyond the measured constants. "
                   "Newton / higher-order solvers with a non-positive root are outside the model (the code returns NaNs or fails in math.log2 instead of rejecting).",
     "ready": True,
 }
